@@ -110,6 +110,19 @@ Definition call_admits (arg_spec param_spec : ty) : bool := assignable arg_spec 
    _encode_tuple calls encode() on every value after the type test *)
 Definition no_encoding (t : ty) : bool := match t with TTxn _ | TRef _ => true | _ => false end.
 
+(* ... and _encode_tuple asks every STATIC value's spec for byte_length_static(), which raises
+   TealInputError at a transaction spec (reference specs answer 1; bool members are not asked) *)
+Fixpoint slen_raises (t : ty) : bool :=
+  match t with
+  | TTxn _ => true
+  | TStaticArray e _ => if is_bool e then false else slen_raises e
+  | TTuple _ ts => existsb slen_raises ts
+  | _ => false
+  end.
+
+Definition member_refused (t : ty) : bool :=
+  no_encoding t || (negb (is_dynamic t) && slen_raises t).
+
 Definition set_admits (src dst : ty) : bool :=
   match dst with
   | TByte | TUint _ => isinst src C_Uint && N.eqb (uint_size dst) (uint_size src)
@@ -117,7 +130,7 @@ Definition set_admits (src dst : ty) : bool :=
   | TAddress => py_eq src TAddress || py_eq src (TStaticArray TByte 32)
   | TString => py_eq src TString || py_eq src (TDynArray TByte)
   | TStaticArray _ _ | TStaticBytes _ | TDynArray _ | TDynBytes => py_eq dst src
-  | TTuple _ [e] => py_eq e src && negb (no_encoding src)
+  | TTuple _ [e] => py_eq e src && negb (member_refused src)
   | TTuple _ _ => false
   | TTxn _ | TRef _ => false
   end.
@@ -127,7 +140,7 @@ Definition set_target (dst : ty) : ty :=
   match dst with TTuple _ [e] => e | _ => dst end.
 
 (* member assignment: Tuple.set( *values) / Array.set([values]) test  not (memberType != v.type_spec()) *)
-Definition elem_admits (src slot : ty) : bool := py_eq slot src && negb (no_encoding src).
+Definition elem_admits (src slot : ty) : bool := py_eq slot src && negb (member_refused src).
 
 (* dst.set(<ComputedValue producing src>): BaseType._set_with_computed_type tests
    not (self.type_spec() != produced); Address.set has its own two-way test *)
